@@ -30,7 +30,9 @@ RULE = ("Hypothesis draws a prior store state (history of 0-5 API calls), a clie
 ASSUMPTIONS = ["-deletemetadata without -formatid corresponds to deleting the default-namespace document "
                "(what the client substitutes)", "-obj_size values are integer literals (others cannot be "
                "given 'in the type the API requires')", "object / document contents are UTF-8 text"]
-PIDS = ["doi:10.1/cli", "pid2"]
+# (the third pid and one format id contain percent escapes, '+', '=' and '&' as identifiers pasted from a REST url do: options reach the
+#  API unedited - neither decoded nor re-encoded)
+PIDS = ["doi:10.1/cli", "pid2", "https://ex.org/v2/object?id=F1%2FQN64&v=2+x%25"]
 
 
 def examples(tier):
@@ -61,7 +63,7 @@ def _case(draw, tier):
         c["size"] = draw(st.sampled_from(["right", "right", "wrong", "0", "-1"]))
     elif verb in ("storemetadata", "retrievemetadata", "deletemetadata"):
         c["opts"] = draw(st.sets(st.sampled_from(["formatid"])).map(sorted))
-        c["fmt"] = draw(st.sampled_from(["fmt:x", "fmt:y", common.DEFAULT_NS]))
+        c["fmt"] = draw(st.sampled_from(["fmt:x", "fmt:y", common.DEFAULT_NS, "http://ns.example/fmt%2Fv1.1+xml"]))
     elif verb == "getchecksum":
         c["opts"] = ["algo"]
         c["algo"] = draw(st.one_of(gen.algo_spelling(), gen.algo_spelling(), st.sampled_from(["sm3"])))
